@@ -21,7 +21,7 @@ RULE = (
     "produced the result); fuzz: an Atheris / libFuzzer campaign (coverage-guided through the instrumented ASan build "
     "of the kernels; bytes decoded into gap-encoded arrays, layouts, None operands, k-way lists; oracle inside the "
     "target; half the shards start from an empty corpus, half from 4 small valid inputs; 4 000 executions per shard "
-    "quick, 1.5 million thorough); non-trivial multi-way case = at least two non-empty arrays sharing a value; "
+    "quick, 500 000 thorough); non-trivial multi-way case = at least two non-empty arrays sharing a value; "
     "wrapper case = one with a None operand or an empty result. Distinct by operand contents."
 )
 ASSUMPTIONS = [
@@ -59,7 +59,7 @@ def L(tier):
 def fuzz_runner(sub, tier, seed, shard, nshards, rec):
     fuzzrun.run_campaign(sub, tier, seed, shard, nshards, rec,
                          os.path.join(VERIF, "vfw", "fuzz", "kernels_fuzz.py"),
-                         {"quick": 4000, "thorough": 1500000}, asan=True, seed_corpus=kernel_seeds,
+                         {"quick": 4000, "thorough": 500000}, asan=True, seed_corpus=kernel_seeds,
                          asan_abort_is_violation=False, mode="c08")
 
 
